@@ -177,7 +177,7 @@ def check(case, ctx):
                 judge("a.rollaxis(%r, %d)" % (ai, start), fn, [m.dims[q] for q in perm], exp_values=np.rollaxis(m.values, i, start))
     elif fam == 'newaxis':
         for pos in range(0, nd + 1):
-            for vals in (None, [7, 8, 9], ['p', 'q'], np.array([1.5, 2.5])):
+            for vals in (None, [7, 8, 9], ['p', 'q'], np.array([1.5, 2.5]), [30.5], ['only']):
                 ed = list(m.dims)
                 ed.insert(pos, 'n')
                 kw = {} if vals is None else {"values": vals}
@@ -213,7 +213,7 @@ def check(case, ctx):
             ed = list(m.dims)
             ed.insert(pos, 'n')
             for vals, lab in ((3, [0, 1, 2]), ([5, 6], [5, 6]), (np.array([1.5, 2.5, 4.0]), [1.5, 2.5, 4.0]), (['u', 'v'], ['u', 'v']),
-                              (da.Axis([1, 2, 3], 'n'), [1, 2, 3])):
+                              (da.Axis([1, 2, 3], 'n'), [1, 2, 3]), (1, [0]), ([42], [42]), (da.Axis(['z9'], 'n'), ['z9'])):
                 ax = rng.choice(['n', pos])
                 if isinstance(vals, da.Axis) and rng.random() < 0.5:
                     fn = lambda vals=vals: r0.repeat(vals)
